@@ -222,6 +222,29 @@ check('C01', 'exploration',
       'TLC-generated grammar sentences replayed through parse/print/parse/copy + TLC-judged pipeline records (RoundTrip.tla)',
       'DESIGN.md 2.1, 5/C01')
 
+EXTRA_TEXT = {
+    'C02': ' Also: edge lexemes (empty strings, zero, quoted names with blanks/dots) in the grammar sentences, one representative '
+           'per Unicode category in 9 positions, an adversarial-lexing termination probe (30 s budget), and parse calls forced to '
+           'overlap in time along schedules enumerated by TLC (Calls.tla).',
+    'C03': ' White-space layouts (also inside two-word operators such as IS NOT / NOT IN) must not change the grouping.',
+    'C07': ' Positions next to an operator sign (unary minus, subtraction): the literal must not fuse with it into a comment marker.',
+    'C08': ' Query space includes CTEs named like tables of another integration; a fetch that still carries an integration '
+           'qualifier cannot be evaluated by its integration and counts as a failure.',
+    'C09': ' Call histories: several queries on one QueryPlanner object / fresh planners sharing the catalog objects; every plan judged.',
+    'C10': ' Call histories as in C09; versioned and plain references to one model in one statement.',
+    'C11': ' Correlated sub-queries (SQLSem resolves outer scopes) and the same integration under other names (crm_views, s3files, My_Db).',
+    'C12': ' Numbering is also judged on every AND/OR/NOT tree of ExprPrec.tla (up to 3 operators, minimal and full parentheses) with a '
+           'placeholder at each leaf in WHERE / HAVING / ON / DELETE / UPDATE conditions.',
+    'C13': ' Visits of nodes that the visitor itself returned as replacements are counted and judged (a replacement is never visited).',
+    'C14': ' Variants: constant-first spellings of table conditions, a CTE named like the model (unused and used).',
+    'C16': ' Lexeme kinds include doubled single quotes inside a double-quoted literal and a semicolon inside quotes / a quoted name.',
+    'C18': ' Steps and plans of one query planned under different catalogs (ordinary vs time-series model, names vs dicts) are compared '
+           'pairwise both ways: symmetry, equal => structurally the same, transitivity.',
+    'C19': ' Illegal-character reports are judged on CRLF texts and after U+2028 / FF / NEL / VT inside literals.',
+    'C20': ' Call kinds include prepare_steps / get_statement_info; planner call histories (one planner object, shared catalog objects) '
+           'must give the plan of a fresh planner; pairs of rejected inputs are forced through block-shaped 5-step schedules.',
+}
+
 ALL = ['C%02d' % i for i in range(1, 21)]
 
 
@@ -237,7 +260,7 @@ def main():
                 'evidence_file': 'evidence/%s.json' % pid,
                 'replay_cmd_template': './check %s --replay {path}' % pid,
                 'engine': 'tlc',
-                'level_claimed': {'category': c['level'], 'text': c['text'], 'design_ref': c['design_ref']},
+                'level_claimed': {'category': c['level'], 'text': c['text'] + EXTRA_TEXT.get(pid, ''), 'design_ref': c['design_ref']},
                 'level_note': c['note'],
                 'technique': c['technique'],
             })
